@@ -297,11 +297,71 @@ class Maps:
                                       self.describe(self.du.origin(x.rv.ops[1]), depth + 1))
             else:
                 val = "?"
-            alts.append((self.guards(bi), val))
+            alts.append((bi, val))
         if len(alts) == 1:
             return alts[0][1]
+        alts = self._path_alternatives(alts)
         return "select{%s}" % "; ".join("%s => %s" % (" & ".join(g) or "otherwise", v)
                                         for g, v in sorted(alts))
+
+    def _render_edge(self, sw, v):
+        t = self.b.blocks[sw].term
+        cond = self.describe(self.du.origin(t.discr), 3)
+        if v == 0:
+            return "!" + cond
+        if v == "else" and [a for a, _t in t.arms] == [0]:
+            return cond
+        return "%s==%s" % (cond, v)
+
+    def _path_alternatives(self, alts, limit=96):
+        """[(def block, value)] -> [(tests, value)]: one entry per loop-free path from the closest common
+        dominator of the definitions to each definition, with every test taken on the way (so the tests of
+        an alternative are its full path condition below the common dominator, not only the tests that
+        dominate it: a `match` with guards reaches its fall-through arm over several paths). Falls back
+        to the dominating tests when the region is cyclic or has too many paths."""
+        b = self.b
+        blocks = [bi for bi, _v in alts]
+        doms = [b.dominators().get(x, set()) | {x} for x in blocks]
+        common = set.intersection(*doms) if doms else set()
+        fallback = [(self.guards(bi), v) for bi, v in alts]
+        if not common or len(set(blocks)) != len(blocks):
+            return fallback
+        c = max(common, key=lambda x: len(b.dominators().get(x, set())))
+        if c in blocks:
+            return fallback
+        outer = self.guards(c)
+        vals = dict(alts)
+        out = []
+
+        def go(x, tests, seen):
+            if len(out) > limit or x in seen:
+                raise ValueError
+            if x in vals:
+                out.append((outer + tuple(tests), vals[x]))
+                return
+            seen = seen | {x}
+            t = b.blocks[x].term
+            if t.kind == "switch":
+                arms = [(v, tb) for v, tb in list(t.arms) + [("else", t.otherwise)]
+                        if tb is not None and tb in self.feasible]
+                for v, tb in arms:
+                    # only arms from which some definition is still reachable
+                    if not any(d == tb or d in b.reachable(tb) for d in blocks):
+                        continue
+                    go(tb, tests + ([self._render_edge(x, v)] if len(arms) > 1 else []), seen)
+                return
+            for y in t.succs():
+                if y in self.feasible and not b.blocks[y].cleanup and \
+                        any(d == y or d in b.reachable(y) for d in blocks):
+                    go(y, tests, seen)
+        try:
+            go(c, [], frozenset())
+        except (ValueError, RecursionError):
+            return fallback
+        if {v for _g, v in out} != set(vals.values()) and len(out) < len(alts):
+            return fallback
+        # merge identical entries
+        return sorted(set(out))
 
     def guards(self, bb):
         """tests (rendered) that decide whether block bb runs, innermost last"""
